@@ -212,6 +212,7 @@ pub fn run_c01(a: &Args) {
         let mut ops_done: Vec<Op> = vec![];
         let mut failed_classes: Vec<String> = vec![];
         let mut redo_unfaithful = false;
+        let mut fwd: Vec<(String, String)> = vec![]; // (snapshot before the operation, its class context), one per recorded operation
         st.histories += 1;
         for _ in 0..len {
             let op = script.pop_front().unwrap_or_else(|| gen_op(&mut rng, &ctx_of(&m), false));
@@ -273,19 +274,32 @@ pub fn run_c01(a: &Args) {
             }
             ev_in.push("r".into());
             ev_out.push(format!("{}:{}:{}", it.id(&s1b), b(m.can_undo()), b(m.can_redo())));
+            fwd.push((s0.clone(), kc.clone()));
         }
-        // walk back to the beginning
+        // walk back to the beginning; every single undo must give the state before its operation
         if failed_classes.is_empty() && !redo_unfaithful {
             let mut guard = 0;
             while m.can_undo() && guard < 500 {
                 if guarded(|| m.undo()).is_err() { break; }
                 guard += 1;
+                let sw = snap(&m);
+                or.checked += 1;
+                if let Some((s_exp, kc_exp)) = fwd.pop() {
+                    if sw != s_exp {
+                        // a history with operations of the coarse groups is known to walk back unfaithfully
+                        // (same class as the end-of-walk comparison); anything else gets a tight class
+                        let any_coarse = ops_done.iter().any(|o| coarse(group(kind(o)))) && !plain();
+                        let (pre, kk) = if any_coarse { ("walkback", "structural".to_string()) } else { ("walkback-step", kc_exp.clone()) };
+                        fail_tags(&mut or, &mut failed_classes, pre, &kk, &s_exp, &sw, json!({"history": ops_json(&ops_done), "undone_steps": guard, "diff": snap_diff(&s_exp, &sw, 4)}), format!("while walking back, the undo of {kc_exp} did not give the state before it"));
+                        break;
+                    }
+                }
                 ev_in.push("u".into());
-                ev_out.push(format!("{}:{}:{}", it.id(&snap(&m)), b(m.can_undo()), b(m.can_redo())));
+                ev_out.push(format!("{}:{}:{}", it.id(&sw), b(m.can_undo()), b(m.can_redo())));
             }
             or.checked += 1;
             let sb = snap(&m);
-            if sb != s_init {
+            if failed_classes.is_empty() && sb != s_init {
                 let any_coarse = ops_done.iter().any(|o| coarse(group(kind(o))));
                 fail_tags(&mut or, &mut failed_classes, "walkback", if any_coarse { "structural" } else { "plain" }, &s_init, &sb, json!({"history": ops_json(&ops_done), "diff": snap_diff(&s_init, &sb, 4)}), "undoing the whole history did not restore the initial snapshot".into());
             }
